@@ -111,7 +111,7 @@ class G:
                 d = self.pick(["PRECEDING", "FOLLOWING"])
                 if k < 0.55:
                     return "UNBOUNDED " + d, N("ASTWindowRowItem", row_type="EnumWindowRowType." + d, is_unbounded=True, row_num=None)
-                m = r.randint(1, 9)
+                m = r.choice([0, 0, 1, 2, 5, 9])
                 return "%d %s" % (m, d), N("ASTWindowRowItem", row_type="EnumWindowRowType." + d, is_unbounded=False, row_num=m)
             a, ta = item(True)
             b, tb = item(False)
